@@ -1808,6 +1808,8 @@ def _is_log_call(c):
             if root.attr in ("logger", "log", "_logger"):
                 return True
             root = root.value
+        if isinstance(root, ast.Call) and ast.unparse(root.func).split(".")[-1] in ("getLogger", "getChild"):
+            return True
         return isinstance(root, ast.Name) and root.id in _LOG_ROOTS
     return False
 
